@@ -94,6 +94,11 @@ COMMENTS = frozenset([
     'LINE_COMMENT', 'BLOCK_COMMENT'
 ])
 
+# an explicit semicolon that follows after nothing but white space, line
+# terminators and comments
+PATT_SEMI_AHEAD = re.compile(
+    r'(?:[\s\ufeff]|/\*.*?\*/|//[^\n\r\u2028\u2029]*)*;', flags=re.S)
+
 PATT_LINE_TERMINATOR_SEQUENCE = re.compile(
     r'(\n|\r(?!\n)|\u2028|\u2029|\r\n)', flags=re.S)
 PATT_LINE_CONTINUATION = re.compile(
@@ -465,6 +470,10 @@ class Lexer(object):
             and self.cur_token_real.type in ['BREAK', 'CONTINUE',
                                              'RETURN', 'THROW']
                 and not self._is_property_name(self.cur_token_real)):
+            if PATT_SEMI_AHEAD.match(self.lexer.lexdata, self.lexer.lexpos):
+                # the statement is terminated by a real semicolon, which
+                # is only separated from the keyword by layout.
+                return self.cur_token
             if self.cur_token.type in COMMENTS:
                 # the comment itself is still to be provided
                 if self.yield_comments:
